@@ -32,7 +32,7 @@ func (e *Engine) verifyFunction(fn *ssa.Function, ct *Contract, sweepOnly bool) 
 	key := fnKey(fn, e.home)
 	vc := newVC(e, key)
 	x := &Exec{eng: e, vc: vc, top: fn, contract: ct, heapSorts: map[string]Sort{}, written: map[string]bool{},
-		nilSeen: map[string]*ssa.BasicBlock{}, arith: "math", usedModels: map[string]bool{}}
+		nilSeen: map[string]*ssa.BasicBlock{}, arith: "math", usedModels: map[string]bool{}, poolVals: map[string]bool{}}
 	x.assumeNil = sweepOnly && ct == nil
 	if ct != nil {
 		if v := ct.Opts["arith"]; v != "" {
@@ -234,6 +234,12 @@ func (x *Exec) checkModifies(fr *Frame, exit *State, ct *Contract) {
 		env := x.newEnv(fr, x.entry, x.entry, vars, fr.fn)
 		if pfx, obj, ok := env.lvalue(e); ok {
 			singles = append(singles, objField{pfx, obj})
+			if pfx == kBufOwned || pfx == kBufLen {
+				env2 := x.newEnv(fr, exit, x.entry, vars, fr.fn)
+				if _, obj2, ok := env2.lvalue(e); ok && obj2.S != obj.S {
+					singles = append(singles, objField{pfx, obj2})
+				}
+			}
 		} else {
 			x.specErrors = append(x.specErrors, ct.Key+": modifies "+m+" not an lvalue")
 		}
@@ -263,8 +269,10 @@ func (x *Exec) checkModifies(fr *Frame, exit *State, ct *Contract) {
 			continue
 		}
 		var goal Term
+		var frameObj Term
 		if strings.HasPrefix(string(srt), "(Array") {
 			o := x.vc.Fresh("frameobj", keySort(srt))
+			frameObj = o
 			var excl []Term
 			for _, s := range singles {
 				if k == s.prefix || strings.HasPrefix(k, s.prefix+"#") {
@@ -275,10 +283,18 @@ func (x *Exec) checkModifies(fr *Frame, exit *State, ct *Contract) {
 			if keySort(srt) == SInt {
 				excl = append(excl, Ge(o, IntLit(0)))
 			}
+			if k == kBufLen {
+				// only buffers owned by somebody on entry are framed (see applyModifies)
+				excl = append(excl, Select(x.heapGet(x.entry, kBufOwned, arrOf(SBool)), o))
+			}
 			goal = Implies(And(excl...), Eq(Select(newT, o), Select(oldT, o)))
 		} else {
 			goal = Eq(newT, oldT)
 		}
-		x.vc.AddObligation(&Obligation{Name: "frame:" + k, Kind: "frame", Desc: "heap location " + k + " is not modified outside the modifies clause", Cond: exit.pc, Goal: goal})
+		fo := &Obligation{Name: "frame:" + k, Kind: "frame", Desc: "heap location " + k + " is not modified outside the modifies clause", Cond: exit.pc, Goal: goal}
+		if frameObj.Valid() {
+			fo.Inputs = append([]ModelVar{{"FRAMEOBJ", frameObj}, {"FRAMEOBJ.old", Select(oldT, frameObj)}, {"FRAMEOBJ.new", Select(newT, frameObj)}}, x.vc.inputs...)
+		}
+		x.vc.AddObligation(fo)
 	}
 }
